@@ -9,10 +9,12 @@
   5. classify against known_findings.json,
   6. write evidence/<id>.json, print KNOWN-FINDING / VIOLATION lines.
 """
-import fcntl, json, os, re, subprocess, sys, time
+import fcntl, json, os, re, shutil, subprocess, sys, time
 
 ALLOWED_AXIOMS = {"propext", "Classical.choice", "Quot.sound"}
 FORBIDDEN = ["sorry", "admit", "native_decide", "bv_decide", "implemented_by", "unsafe ", "maxHeartbeats 0"]
+
+REPO = os.environ.get("VERIF_REPO", "/repo")
 
 def goenv():
     e = dict(os.environ)
@@ -133,16 +135,24 @@ def go_stage(root, pid, tier, seed, replay, work):
     # go.sum must match /repo's
     try:
         import shutil
-        shutil.copyfile("/repo/go.sum", os.path.join(gdir, "go.sum"))
+        shutil.copyfile(os.path.join(REPO, "go.sum"), os.path.join(gdir, "go.sum"))
     except Exception:
         pass
     binp = os.path.join(work, "harness-%d" % os.getpid())
-    build = ["go", "build", "-tags", "verif", "-o", binp, "./harness"]
+    modflag = []
+    if REPO != "/repo":
+        # the registered commands check /repo; VERIF_REPO points the same machinery at another
+        # source tree (a scratch worktree with a seeded change) through an alternate go.mod
+        alt = os.path.join(work, "go.alt-%d.mod" % os.getpid())
+        open(alt, "w").write(open(os.path.join(gdir, "go.mod")).read().replace("=> /repo", "=> " + REPO))
+        shutil.copyfile(os.path.join(REPO, "go.sum"), alt[:-4] + ".sum")
+        modflag = ["-modfile=" + alt]
+    build = ["go", "build"] + modflag + ["-tags", "verif", "-o", binp, "./harness"]
     env = goenv()
     racelog = None
     if pid == "C18":
         # the concurrency property runs under the race detector; its reports go to a log file
-        build = ["go", "build", "-race", "-tags", "verif", "-o", binp, "./harness"]
+        build = ["go", "build"] + modflag + ["-race", "-tags", "verif", "-o", binp, "./harness"]
         racelog = os.path.join(work, "race-%d" % os.getpid())
         env = dict(env, GORACE="log_path=%s exitcode=0 halt_on_error=0" % racelog)
     rc, out = sh(build, cwd=gdir, env=env, timeout=1200)
